@@ -1,4 +1,4 @@
 SPECIFICATION MCSpec
-CONSTANTS Key = {1, 2} Txn = {1, 2} MaxDepth = 3 MaxTso = 4
-CONSTRAINT Emit
+CONSTANTS Key = {1, 2} Txn = {1, 2} MaxDepth = 3 MaxTso = 4 EmitOn = TRUE
+VIEW VIEW_
 CHECK_DEADLOCK FALSE
